@@ -373,6 +373,10 @@ def handle (op : String) : RdM String := do
         | "odd" => pure (ccWeightsOdd c m nf pv)
         | _ => failure
       pure (" | ".intercalate [showPMap w.ns, showPMap w.g, showPMap w.s, showPMap w.v])
+  | "isospin" => do   -- apply_isospin on one weight map: isospin z a w×14
+      let z ← rat; let a ← rat; let ws ← rats 14
+      let w : PMap := fun p => ws.getD (flavorBasisPids.idxOf p) 0
+      pure (showPMap (isospin z a w))
   | "combiner" => do
       let (e, fl, pa) ← rdEsf
       pure (" ; ".intercalate ((collectElems e fl pa).map showKernel))
